@@ -49,12 +49,7 @@ def checkpicosvg (allowText dropUnsupported : Bool) : DocM (List Violation) := d
 def removeOrphansAfterPruning : DocM Unit := do
   let used ← usedGradientIds
   let root ← getRoot
-  let grads := root.elems.filter (fun n => (Node.splitNs n.tag).1 == some svgNs && isGradLocal n.localTag)
-  let mut r := root
-  for g in grads do
-    let keep := match g.getAttr "id" with | some i => used.contains i | none => false
-    if !keep then r := Node.removeUid r g.uid
-  setRoot r
+  setRoot (pruneGrads used root)
   dropCache
 
 /-- groups left underfull by pruning are flattened: reversed depth-first, `_try_remove_group` -/
